@@ -297,12 +297,20 @@ def maskOf (r : RuleData) : List Nat :=
   if r.allSyscalls then List.replicate 63 0xFFFFFFFF ++ [0x0000FFFF]
   else (List.range 64).map (maskWord r.syscalls)
 
+/-- `for i := range r.fields { data.Fields[i] = … }`: stores into a fixed array of `n` words;
+a store beyond the array is a panic. -/
+def storeAll (n : Nat) (vals : List Nat) : Res (List Nat) :=
+  if vals.length ≤ n then Res.ok (padTo n vals) else Res.panic
+
 /-- toAuditRuleData + toWireFormat; error when there are too many fields. -/
 def toWire (r : RuleData) : Res Bytes :=
-  if r.fields.length > LA.Gen.RuleTables.maxFields then Res.err "err" else
+  if r.fields.length > LA.Gen.RuleTables.maxFields then Res.err "err" else do
+  let fields ← storeAll 64 r.fields
+  let values ← storeAll 64 r.values
+  let fflags ← storeAll 64 r.fieldFlags
   let buf := r.strings.flatten
   let hdr := le32 r.flags ++ le32 r.action ++ le32 r.fields.length ++ (maskOf r).flatMap le32 ++
-    (padTo 64 r.fields).flatMap le32 ++ (padTo 64 r.values).flatMap le32 ++ (padTo 64 r.fieldFlags).flatMap le32 ++
+    fields.flatMap le32 ++ values.flatMap le32 ++ fflags.flatMap le32 ++
     le32 (buf.length % 4294967296)
   let n := hdr.length + buf.length
   Res.ok (hdr ++ buf ++ List.replicate ((4 - n % 4) % 4) 0)
